@@ -83,6 +83,10 @@ type DFA struct {
 	// When false (most patterns), this check is skipped entirely.
 	hasEndLine bool
 
+	// hasLook is true if the NFA contains any look-around assertion (^, $, \b, \B, ...).
+	// Without one there is nothing to resolve at end of input.
+	hasLook bool
+
 	// isAlwaysAnchored is true if the pattern is inherently anchored (has ^ prefix).
 	// When true, we only need to try matching from position 0.
 	isAlwaysAnchored bool
@@ -1524,6 +1528,12 @@ func (d *DFA) tryClearCache(cache *DFACache) error {
 func (d *DFA) checkEOIMatch(state *State) bool {
 	if state == nil {
 		return false
+	}
+
+	// No assertion can become satisfied at end of input: the state's own NFA
+	// states decide (keeps the no-match path allocation-free).
+	if !d.hasLook {
+		return containsNFAMatch(d.nfa, state.NFAStates())
 	}
 
 	// Create a temporary builder for EOI resolution
